@@ -12,6 +12,7 @@ import numpy as np
 import sympy
 
 from ..gen import circuits as GC
+from ..gen import numbers as GN
 from ..gen import symbols as GS
 from ..ref import linalg as L
 
@@ -57,7 +58,7 @@ _JUDGED_EXC = [None]  # the exception object a hook has already turned into a ve
 
 
 def classes(tier):
-    return ["builtin", "symbolic", "wrapped", "custom", "mixed", "circuitset", "edge"]
+    return ["builtin", "symbolic", "wrapped", "custom", "mixed", "circuitset", "edge", "history"]
 
 
 # ============================================================================ structural walker
@@ -648,12 +649,19 @@ def _judge_images(mon, name, origs, imgs, text, exc):
         mon.ok(name)
 
 
-def _post_circuit_from_dict(mon, call):
-    name = "circuit_from_dict"
+def _pre_canon(mon, call):
+    """canonical text of the dictionary as it is handed in (a deserialiser may consume its input)"""
     d = call.args[0] if call.args else call.kwargs.get("dict_")
     try:
-        text = _canon(d)
+        return _canon(d)
     except Exception:
+        return None
+
+
+def _post_circuit_from_dict(mon, call):
+    name = "circuit_from_dict"
+    text = call.pre
+    if text is None:
         mon.out_of_domain(name)
         return
     orig = _REG.get(text)
@@ -665,10 +673,8 @@ def _post_circuit_from_dict(mon, call):
 
 def _post_circuitset_from_dict(mon, call):
     name = "circuitset_from_dict"
-    d = call.args[0] if call.args else call.kwargs.get("dict_")
-    try:
-        text = _canon(d)
-    except Exception:
+    text = call.pre
+    if text is None:
         mon.out_of_domain(name)
         return
     orig = _REG.get(text)
@@ -925,8 +931,9 @@ def install(mon, reach):
     mon.hook_func(S, "serialize_expr", post=_post_serialize_expr, name="serialize_expr")
     mon.hook_func(S, "deserialize_expr", post=_post_deserialize_expr, name="deserialize_expr")
     mon.hook_func(S, "to_dict", post=_post_to_dict, name="to_dict")
-    mon.hook_func(S, "circuit_from_dict", post=_post_circuit_from_dict, name="circuit_from_dict")
-    mon.hook_func(S, "circuitset_from_dict", post=_post_circuitset_from_dict, name="circuitset_from_dict")
+    mon.hook_func(S, "circuit_from_dict", post=_post_circuit_from_dict, pre=_pre_canon, name="circuit_from_dict")
+    mon.hook_func(S, "circuitset_from_dict", post=_post_circuitset_from_dict, pre=_pre_canon,
+                  name="circuitset_from_dict")
     mon.hook_func(S, "save_circuit", post=_post_save("save_circuit", False), pre=_pre_pos, name="save_circuit")
     mon.hook_func(S, "save_circuitset", post=_post_save("save_circuitset", True), pre=_pre_pos, name="save_circuitset")
     mon.hook_func(S, "load_circuit", post=_post_load("load_circuit", False), pre=_pre_load, name="load_circuit")
@@ -999,10 +1006,13 @@ def rand_base_gate(rng, nprng, symbols, style, defs=None, max_nq=2, allow_u3=Tru
         for _ in own:
             r = rng.random()
             if style == "numeric" or (style == "any" and r < 0.4):
-                args.append(GS.rand_number(rng) if rng.random() < 0.8 else complex(rng.randint(-2, 2), rng.randint(1, 3)))
+                # custom gates are where complex arguments live: every printing family of a complex number
+                args.append(GS.rand_number(rng) if rng.random() < 0.65 else GN.rand_complex(rng))
             elif r < 0.55 and style != "numeric":
                 # instance arguments that mention the definition's own symbols (also swapped)
                 args.append(rng.choice(own) if rng.random() < 0.6 else GS.rand_expr(rng, own, 1))
+            elif r < 0.65 and symbols:
+                args.append(GN.rand_complex_expr(rng, symbols))
             else:
                 args.append(GS.rand_param(rng, symbols, "any" if style == "any" else rng.choice(["symbol", "expr"])))
         return d(*args)
@@ -1095,6 +1105,31 @@ def rand_circuit(rng, nprng, cls, quick=True, defs=None, symbols=None):
     return Circuit(placed, n_qubits=max(width, span))
 
 
+def rand_namespaced_set(rng, nprng, quick, k, pool=None):
+    """k circuits, each with its OWN custom gate definitions drawn under the same one or two names:
+    a gate name is unique within a circuit only (every serialised circuit carries its own definitions),
+    so the same name stands for another matrix / parameter list / arity in the next circuit"""
+    pool = pool or rng.sample(_safe_custom_names(), rng.randint(1, 2))
+    symbols = GS.symbol_pool(rng, 4)
+    out = []
+    for _ in range(k):
+        defs = [rand_def(rng, nprng, n) for n in rng.sample(pool, rng.randint(1, len(pool)))]
+        out.append(rand_circuit(rng, nprng, rng.choice(["custom", "custom", "custom", "mixed"]), quick, defs, symbols))
+    return out
+
+
+def _names_redefined(circuits):
+    """own traversal: some gate name has different definitions in different circuits"""
+    seen = {}
+    rng = random.Random(0)
+    for c in circuits:
+        for d in _defs_used(c):
+            if d.gate_name in seen and seen[d.gate_name] is not d and cmp_def(seen[d.gate_name], d, rng):
+                return True
+            seen.setdefault(d.gate_name, d)
+    return False
+
+
 # ============================================================================ transports
 def _tmpdir():
     global _TMP
@@ -1167,6 +1202,47 @@ def _run(ctx, obj, how, expect_refusal=False):
     return img
 
 
+def _run_history(ctx, objs, order, how):
+    """serialise every object first (real JSON text / file / StringIO), then deserialise in ``order``
+    (an index may occur twice: the text is read a second time); hooks judge every step"""
+    from orquestra.quantum.circuits import _serde as S
+
+    _REG.clear()
+    _EXPR.clear()
+    shipped = []
+    try:
+        for i, obj in enumerate(objs):
+            is_set = isinstance(obj, list)
+            if how == "dict":
+                shipped.append(json.dumps(S.to_dict(obj)))
+            elif how == "stringio":
+                buf = io.StringIO()
+                (S.save_circuitset if is_set else S.save_circuit)(obj, buf)
+                shipped.append(buf)
+            else:
+                path = os.path.join(_tmpdir(), f"h{ctx.index}_{i}.json")
+                shipped.append(path)
+                (S.save_circuitset if is_set else S.save_circuit)(obj, path)
+        for i in order:
+            is_set = isinstance(objs[i], list)
+            if how == "dict":
+                d = json.loads(shipped[i])
+                S.circuitset_from_dict(d) if is_set else S.circuit_from_dict(d)
+            else:
+                if how == "stringio":
+                    shipped[i].seek(0)
+                (S.load_circuitset if is_set else S.load_circuit)(shipped[i])
+        ctx.check("roundtrip-completes", True)
+    except Exception as e:
+        if e is not _JUDGED_EXC[0]:
+            ctx.check("roundtrip-completes", False, f"history via {how}: {e!r}")
+    finally:
+        if how == "path":
+            for path in shipped:
+                if os.path.exists(path):
+                    os.remove(path)
+
+
 def run_case(ctx):
     from orquestra.quantum.circuits import Circuit, CustomGateDefinition
     from orquestra.quantum.circuits import _builtin_gates as B
@@ -1184,17 +1260,56 @@ def run_case(ctx):
         _run(ctx, c, how)
         return
     if cls == "circuitset":
-        k = rng.choice([0, 1, 2, 3, 4])
-        names = rng.sample(_safe_custom_names(), 2)
-        defs = [rand_def(rng, nprng, n) for n in names]
-        symbols = GS.symbol_pool(rng, 4)
-        cs = [rand_circuit(rng, nprng, rng.choice(["builtin", "symbolic", "wrapped", "custom", "mixed"]), ctx.quick,
-                           defs, symbols) for _ in range(k)]
-        if k and rng.random() < 0.2:
-            cs.insert(rng.randrange(k + 1), Circuit() if rng.random() < 0.5 else Circuit([], n_qubits=rng.randint(1, 5)))
-        ctx.describe(f"circuitset via {how}: [{' | '.join(describe_circuit(c) for c in cs)}]",
+        mode = rng.choice(["shared", "shared", "own", "own", "own", "repeat"])
+        ctx.mon.note(f"circuitset mode {mode}")
+        if mode == "own":
+            cs = rand_namespaced_set(rng, nprng, ctx.quick, rng.randint(2, 4))
+            if _names_redefined(cs):
+                ctx.mon.note("circuitset: one gate name, different definitions in different circuits")
+        else:
+            k = rng.choice([0, 1, 2, 3, 4])
+            names = rng.sample(_safe_custom_names(), 2)
+            defs = [rand_def(rng, nprng, n) for n in names]
+            symbols = GS.symbol_pool(rng, 4)
+            cs = [rand_circuit(rng, nprng, rng.choice(["builtin", "symbolic", "wrapped", "custom", "mixed"]), ctx.quick,
+                               defs, symbols) for _ in range(k)]
+            if mode == "repeat" and cs:
+                # the same circuit object twice, and an equal circuit built a second time
+                c = rng.choice(cs)
+                cs.insert(rng.randrange(len(cs) + 1), c)
+                cs.insert(rng.randrange(len(cs) + 1), Circuit(list(c.operations), n_qubits=c.n_qubits))
+        if cs and rng.random() < 0.2:
+            cs.insert(rng.randrange(len(cs) + 1),
+                      Circuit() if rng.random() < 0.5 else Circuit([], n_qubits=rng.randint(1, 5)))
+        ctx.describe(f"circuitset[{mode}] via {how}: [{' | '.join(describe_circuit(c) for c in cs)}]",
                      any(is_nontrivial(c) for c in cs))
         _run(ctx, cs, how)
+        return
+    if cls == "history":
+        # several tasks in flight: everything is serialised first, then read back in another order, some
+        # texts twice.  The objects are unrelated except that they use the same few custom gate names
+        # for different definitions (each circuit is its own namespace)
+        how = rng.choice(["dict", "dict", "stringio", "path"])
+        pool = rng.sample(_safe_custom_names(), 2)
+        objs = []
+        for _ in range(rng.randint(2, 3)):
+            if rng.random() < 0.3:
+                objs.append(rand_namespaced_set(rng, nprng, ctx.quick, 2, pool))
+            else:
+                defs = [rand_def(rng, nprng, n) for n in rng.sample(pool, rng.randint(1, 2))]
+                objs.append(rand_circuit(rng, nprng, rng.choice(["custom", "custom", "mixed"]), ctx.quick, defs))
+        if rng.random() < 0.3:
+            objs.append(rng.choice(objs))  # the same object serialised a second time
+        order = list(range(len(objs)))
+        rng.shuffle(order)
+        order += rng.sample(order, rng.randint(1, 2))  # second reading of a text already read
+        flat = [c for o in objs for c in (o if isinstance(o, list) else [o])]
+        ctx.describe(f"history via {how}, read order {order}: " + " || ".join(
+            "[" + " | ".join(describe_circuit(c) for c in o) + "]" if isinstance(o, list) else describe_circuit(o)
+            for o in objs), any(is_nontrivial(c) for c in flat))
+        if _names_redefined(flat):
+            ctx.mon.note("history: one gate name, different definitions in different tasks")
+        _run_history(ctx, objs, order, how)
         return
     if cls == "edge":
         kind = rng.choice(["empty", "idle", "numbers", "dedupe", "conflict", "k3", "expr", "chain", "all_builtin",
